@@ -37,8 +37,7 @@ def campaign(ev, bins, jobs, tag, env=None):
         binp = cbin(b) if fl == "C" else fbin(b)
         rc, o, dt = conc.run_harness(binp, [out, ev.seed * 1000 + k, tier(), mode], topo=topo, timeout=(600 if tier() == 'thorough' else 240), env=env)
         return j, out, rc, o
-    with cf.ThreadPoolExecutor(max_workers=8) as ex:
-        results = list(ex.map(job, list(enumerate(alljobs))))
+    results = conc.pmap(job, list(enumerate(alljobs)), lambda j: j[1][1])
     paths, hangs = [], []
     for (k, (b, mode, fl, topo)), out, rc, o in results:
         if rc == 124:
